@@ -238,7 +238,7 @@ func genC02(ctx *Ctx) {
 	proxycore.VerifTraceStart()
 	e := newEchoEnv(2, nil)
 	tag := 0
-	for i := 0; i < ctx.Scale(6, 60); i++ {
+	for i := 0; i < ctx.Scale(6, 240); i++ {
 		tag++
 		clients, streams, rounds := 1+r.Intn(6), 1+r.Intn(64), 2+r.Intn(4)
 		emitEcho(ctx, echoRound(e, tag, clients, streams, rounds, r, 0), fmt.Sprintf("echo:%dclients", clients), true)
@@ -251,7 +251,7 @@ func genC02(ctx *Ctx) {
 	}
 	// (b) some requests fail on every host (retry exhausts the plan): the error frames are the
 	// proxy's own, and nothing may spill over to the next request on the reused stream
-	for i := 0; i < ctx.Scale(4, 40); i++ {
+	for i := 0; i < ctx.Scale(4, 160); i++ {
 		tag++
 		res := echoRound(e, tag, 1+r.Intn(4), 1+r.Intn(32), 3, r, 4)
 		emitEcho(ctx, res, "echo-with-exhausted-plans", false)
@@ -371,7 +371,7 @@ func forcedSharedRequestSchedule(ctx *Ctx, tag *int) {
 	}
 	be.SetTopology(1)
 	defer be.Shutdown()
-	for round := 0; round < ctx.Scale(6, 60); round++ {
+	for round := 0; round < ctx.Scale(6, 200); round++ {
 		*tag++
 		c, cancel := context.WithTimeout(context.Background(), 20*time.Second)
 		connect := func() *proxycore.ClientConn {
@@ -519,7 +519,7 @@ func concurrentReprepare(ctx *Ctx, r *hv.Rng, tag *int) {
 	}
 	prep.Close()
 	id := md5Of(q)
-	for round := 0; round < ctx.Scale(6, 60); round++ {
+	for round := 0; round < ctx.Scale(6, 200); round++ {
 		*tag++
 		for h := 1; h <= 3; h++ {
 			e.be.Forget(h)
